@@ -242,6 +242,7 @@ func c06Sequential(c *Ctx) {
 
 // c06Config: results must not depend on which optional layers are switched on or how warm the caches are.
 func c06Config(c *Ctx) {
+	snapshotFallbackRules(c)
 	// ---- the snapshot layer mirrors exactly what goes into the trie --------------------------------------------------
 	if fn := c.Fn("kai/state", "stateObject", "updateTrie"); fn != nil {
 		var trieWrites, snapWrites []ssa.Instruction
